@@ -177,7 +177,7 @@ func richSubtitles(r *fw.Rand) *astisub.Subtitles {
 	if r.P(5, 6) {
 		cd := time.Date(2019, 3, 4, 0, 0, 0, 0, time.UTC)
 		mnc := 38
-		md := &astisub.Metadata{Title: "T", Language: fw.Pick(r, []string{"", "english", "french"}), TTMLCopyright: "C", Comments: []string{"c1"}, SSAScriptType: fw.Pick(r, []string{"v4.00", "v4.00+", ""}),
+		md := &astisub.Metadata{Title: fw.Pick(r, []string{"T", "T", "A title that is a good deal longer than thirty-two bytes", "Épisode n° 12 «été» — l'intégrale restaurée"}), Language: fw.Pick(r, []string{"", "english", "french"}), TTMLCopyright: "C", Comments: []string{"c1"}, SSAScriptType: fw.Pick(r, []string{"v4.00", "v4.00+", ""}),
 			Framerate: fw.Pick(r, []int{0, 25, 30}), STLDisplayStandardCode: fw.Pick(r, []string{"", "0", "1"}), STLMaximumNumberOfDisplayableCharactersInAnyTextRow: &mnc}
 		switch r.Intn(3) {
 		case 0:
@@ -218,7 +218,7 @@ func richSubtitles(r *fw.Rand) *astisub.Subtitles {
 				li := astisub.LineItem{Text: fw.Pick(r, []string{"hello", "World & co", "naïve café", "a<b", "x y"})}
 				if r.Bool() {
 					tr := true
-					col := "#ff0000"
+					col := fw.Pick(r, []string{"#ff0000", "#ff0000", "#FF0000", " Red ", "RGBA(1,2,3,4)"}) // as other formats' parsers or a caller may leave them
 					li.InlineStyle = &astisub.StyleAttributes{SRTBold: r.Bool(), SRTItalics: r.Bool(), STLItalics: &tr, SSAEffect: fw.Pick(r, []string{"", `{\i1}`}), TTMLColor: &col,
 						WebVTTTags: []astisub.WebVTTTag{{Name: "c", Classes: fw.Pick(r, [][]string{{"x"}, {"loud", "big"}, {"z", "a", "m"}})}}}
 					if r.Bool() {
